@@ -1,6 +1,7 @@
 package main
 
 import (
+	"go/token"
 	"encoding/json"
 	"fmt"
 	"go/types"
@@ -283,6 +284,28 @@ func runDeterminism(e *Engine, res *checkResult, timeout int, two bool, work str
 		}
 	}
 	obls = append(obls, mk("scan/no-time-random-concurrency-in-planning", "planning code uses no clock, random numbers, goroutines or select", len(bad) == 0, "-", strings.Join(bad, "; ")))
+	// the whole repository (device dialogue included) is sequential: a goroutine,
+	// channel operation or select anywhere makes the order of requests and of
+	// collected data depend on scheduling
+	conc := []string{}
+	for _, f := range e.allFuncs {
+		if !e.inRepo(f) || strings.Contains(e.fset.Position(f.Pos()).Filename, "_test.go") {
+			continue
+		}
+		for _, b := range f.Blocks {
+			for _, ins := range b.Instrs {
+				switch x := ins.(type) {
+				case *ssa.Go, *ssa.Select, *ssa.Send, *ssa.MakeChan:
+					conc = append(conc, shortFuncName(f)+": "+e.lineText(ins.Pos()))
+				case *ssa.UnOp:
+					if x.Op == token.ARROW {
+						conc = append(conc, shortFuncName(f)+": channel receive")
+					}
+				}
+			}
+		}
+	}
+	obls = append(obls, mk("scan/repository-is-sequential", "no goroutine, channel or select in non-test code", len(conc) == 0, "-", strings.Join(conc, "; ")))
 	discharge(obls, "", timeout, false, work, stats)
 	res.obls = append(res.obls, obls...)
 	res.extra["map_range_loops"] = justified
